@@ -46,13 +46,38 @@ def classify_msg(msg):
 
 
 def run_unit(unit, repo=vgen.REPO, rlimit=None, use_cache=True, keep=None):
+    """run_unit_once, and when the front end stops at a call of a function that is not among the extracted items
+    (a helper introduced by a refactoring), retry with that helper inlined at its call sites (rule IN, logged)."""
+    inline = []
+    res = run_unit_once(unit, repo, rlimit, use_cache, keep, tuple(inline))
+    for _round in range(4):
+        if res.get('status') != 'undecided' or not res.get('reason'):
+            break
+        # only helpers of the unit's own types (`unit::T`) or free functions; a missing method of a dependency shim is not a helper
+        mm = re.search(r"no method named `([A-Za-z_0-9]+)` found for [a-z ]*`&?(?:mut )?unit::|cannot find function `([A-Za-z_0-9]+)` in this scope|no function or associated item named `([A-Za-z_0-9]+)` found for [a-z ]*`unit::", res['reason'])
+        if not mm:
+            break
+        name = mm.group(1) or mm.group(2) or mm.group(3)
+        if name in inline:
+            break
+        inline.append(name)
+        res2 = run_unit_once(unit, repo, rlimit, use_cache, keep, tuple(inline))
+        applied = any(r_['rule'].startswith('IN:') for it in res2.get('items', []) for r_ in it.get('rewrites', []))
+        if not applied:
+            break
+        res2['inlined'] = list(inline)
+        res = res2
+    return res
+
+
+def run_unit_once(unit, repo=vgen.REPO, rlimit=None, use_cache=True, keep=None, inline=()):
     """Returns dict: status in {'ok','fail','undecided'}, failures=[{region,name,props,label,msg,line,kind}],
     functions=[{name,mode,ok,micros,rlimit,props,region}], gen=..., times, reason"""
     t0 = time.time()
     unit_path = os.path.join(VERIF, 'units', unit + '.vu')
     res = dict(unit=unit, status='undecided', failures=[], functions=[], reason=None, items=[], rewrites=[], smt_ms=0, total_ms=0, cached=False)
     try:
-        g = vgen.generate(unit_path, repo)
+        g = vgen.generate(unit_path, repo, inline=inline)
     except vgen.LostAnchor as e:
         res['reason'] = 'lost-anchor: %s' % e
         return res
